@@ -102,6 +102,21 @@ theorem half_window_needed :
     ¬ HistOK s h ∧ specOKw s 0 (h.map SegD.seg) (runModel 0 h).obs = false := by
   decide
 
+/-- The statement with the weaker, position-independent bound `-2^31 < off` in place of "less than 2^31 behind
+    the delivery point" (kept visible: it is NOT a theorem, see `tracker_refines_spec_unwindowed_fails`; the
+    property text asks for segments "within half the sequence space of the current position", which is `HistOK`). -/
+def tracker_refines_spec_unwindowed : Prop :=
+  ∀ (s : Bytes) (isn : Nat) (h : List SegD), s.length < 2147483648 → isn < 4294967296 →
+    (∀ g ∈ h, -2147483648 < g.off ∧ g.off + (g.data.length : Int) ≤ (s.length : Int) ∧ g.agrees s) →
+    specOKw s isn (h.map SegD.seg) (runModel isn h).obs = true
+
+theorem tracker_refines_spec_unwindowed_fails : ¬ tracker_refines_spec_unwindowed := by
+  intro H
+  have h1 := H [7] 0 [⟨-2147483647, []⟩, ⟨0, [7]⟩] (by decide) (by decide) half_window_needed.1
+  have h2 := half_window_needed.2.2
+  rw [h2] at h1
+  exact absurd h1 (by decide)
+
 /-- **The byte counter is exact in every reachable state**, for any sequence of `process_payload` /
     `advance_sequence` calls with any arguments (no assumption on the data at all): keys are unique and
     `total_buffered_bytes_` is the sum of the sizes of the buffered chunks as a `uint32_t`. -/
